@@ -263,6 +263,22 @@ pub fn oracle_c01(ctx: &Ctx, sub: &str, idx: u64, case: &Case, obs: &Observed, o
             rp(),
         );
     }
+    // the same stream emitted through the word-based in-memory sink (MemSink<u64>) is the same
+    // FLAC: if the bytes differ from the ByteSink's, they are decoded independently as well
+    if idx % 2 == 0 || obs.bytes.len() < 20_000 {
+        match enc::to_bytes_u64(&obs.stream) {
+            Ok((len, b64)) => {
+                out.count("streams_also_emitted_through_u64_sink");
+                if len != obs.bytes.len() * 8 || b64 != obs.bytes {
+                    let rep64 = refdec::decode_stream(&b64);
+                    let why = rep64.first(&[Class::Fatal, Class::Integrity]).map(|i| i.clause.to_string()).unwrap_or_else(|| if rep64.pcm == a.samples { "decodes-but-bytes-differ".into() } else { "samples-differ".into() });
+                    out.violation(format!("C01|u64-sink|{why}"), format!("the stream written into MemSink<u64> ({len} bits) differs from the one written into ByteSink ({} bits): {why}", obs.bytes.len() * 8), rp());
+                }
+            }
+            Err(enc::SerErr::TooBig(_)) => {}
+            Err(e) => out.violation("C01|u64-sink|write-failed", format!("{e:?}").chars().take(200).collect::<String>(), rp()),
+        }
+    }
     // second opinion
     match claxon_decode(&obs.bytes) {
         Ok((r, c, b, pcm)) => {
